@@ -255,11 +255,33 @@ one_desc(uint64_t idx, uint64_t k, vh_rng *rg)
     int mutated = !vh_chance(rg, 3, 10);
     if (mutated)
         mutate(rg, &d);
+    /* one time in four the table object has a past: it was initialised successfully with another description
+     * and is now pointed at the new one and initialised again (flags and counts are what the first
+     * initialisation left behind) */
+    int reinit = vh_chance(rg, 1, 4);
+    RegisterTable past;
+    memset(&past, 0, sizeof past);
+    if (reinit) {
+        struct rt_desc d0;
+        rt_gen_wellformed(rg, &d0, 1);
+        rt_build(&inst, &d0);
+        if (register_init(&inst.t).code != REG_INIT_SUCCESS)
+            reinit = 0; /* judged when it is the description under test */
+        past = inst.t;
+    }
     rt_build(&inst, &d);
-    VH_CASE4(idx, k, mutated, 0);
+    if (reinit) {
+        inst.t.flags = past.flags;
+        inst.t.areas = past.areas;
+        inst.t.entries = past.entries;
+        register_make_bigendian(&inst.t, d.bigendian);
+        VH_COUNT("initialisation of a table object that was initialised before");
+    }
+    VH_CASE4(idx, k, mutated, reinit);
     char ctx[260];
-    snprintf(ctx, sizeof ctx, "table{%.200s}", rt_describe(&d));
-    expect_uninitialised("when=before-init", ctx);
+    snprintf(ctx, sizeof ctx, "%stable{%.200s}", reinit ? "re-initialised " : "", rt_describe(&d));
+    if (!reinit)
+        expect_uninitialised("when=before-init", ctx);
     struct viol v[40];
     int nv = collect(&d, v);
     RegisterInit ri = register_init(&inst.t);
@@ -310,7 +332,9 @@ one_desc(uint64_t idx, uint64_t k, vh_rng *rg)
         vh_fail("wrong-rule-or-index", key, "%s: reported %s at %d, expected %s at %u (or %s at %u)", ctx,
                 ri.code <= 10 ? codename[ri.code] : "?", pos, codename[rule_major.code], rule_major.idx,
                 codename[index_major.code], index_major.idx);
-    expect_uninitialised("when=after-failed-init", ctx);
+    expect_uninitialised(reinit ? "when=after-failed-reinit" : "when=after-failed-init", ctx);
+    if (reinit)
+        vh_countf("failed re-initialisation: %s", codename[rule_major.code]);
     vh_sig(vh_hash(&d, sizeof d));
 }
 
@@ -426,7 +450,12 @@ harness_run(void)
                                  "expected: entry-in-hole", "expected: entry-invalid-default", "default read back",
                                  "area without registers", "area register run checked",
                                  "rule-major and index-major readings differ (both accepted)",
-                                 "table with more than 65536 registers" };
+                                 "table with more than 65536 registers",
+                                 "initialisation of a table object that was initialised before",
+                                 "failed re-initialisation: no-areas", "failed re-initialisation: area-order",
+                                 "failed re-initialisation: area-overlap", "failed re-initialisation: entry-order",
+                                 "failed re-initialisation: entry-overlap", "failed re-initialisation: entry-in-hole",
+                                 "failed re-initialisation: entry-invalid-default" };
     for (size_t i = 0; i < sizeof req / sizeof req[0]; i++)
         vh_require(req[i]);
 }
